@@ -69,7 +69,8 @@ Inductive value :=
 | VBool (b : bool)
 | VNum (n : num)
 | VStr (s : string)
-| VArr (elem : ty) (l : list value)                 (* slice of element type elem *)
+| VArr (elem : ty) (l : list value)                 (* non-nil slice of element type elem *)
+| VNilArr (elem : ty)                               (* nil slice *)
 | VMap (kt et : ty) (m : list (value * value))      (* map[kt]et *)
 | VStruct (name : string) (ptr : bool) (fields : list (string * value))
                                                     (* struct value, or non-nil pointer to one (ptr = true) *)
